@@ -13,6 +13,15 @@ TEXT = {
  "C16": ("model_checking", "Lock-step differential check of the linear algorithm against an independent reference model on symbolic histories and recipe states (stack, double stack, ring buffer, compaction)."),
  "C17": ("model_checking", "Handle look-ups, user-data updates and both enumeration interfaces are checked after every step of symbolic histories / recipes."),
  "C18": ("model_checking", "Coalescing assertion after every step; emptied block compared with a fresh block (observables, internal state modulo symmetries, lock-step requests)."),
+ "C02": ("model_checking", "A real Allocator on a simulated device is driven through bounded histories of public API calls and complete defragmentation runs with symbolic sizes and alignments; after every call each live Allocation is compared with the device's ground truth by the solver."),
+ "C04": ("model_checking", "Same histories; the allocator's statistics and heap budget figures are compared with the simulated device's live objects after every call (and, through C10's harness, after every injected failure)."),
+ "C08": ("model_checking", "Every driver call made during scripted map/unmap/allocate/free/flush/defragment sequences (constructed to cross the mapping-hysteresis thresholds) is validated by the simulated device against the Vulkan valid-usage rules named in the property; the minimum-alignment kernel is decided at full width."),
+ "C09": ("model_checking", "vam's real granularity handler under both real block algorithms; page disjointness of conflicting kinds decided by the solver for all sizes and alignments within bounded histories."),
+ "C10": ("fault_enumeration", "Fault decisions are symbolic Booleans at every fallible driver call, so the solver covers every fault position of every explored operation; after each failure the no-trace conditions are asserted against device ground truth."),
+ "C11": ("model_checking", "Histories on devices with small heap limits and allocation-count limits and on custom pools; limits and mode flags are asserted after every call. The concurrent race clause is not covered."),
+ "C14": ("model_checking", "Pointers returned by Map are compared with the simulated device's base address plus the allocation's current offset across hysteresis-crossing scripts and defragmentation moves; mapping balance is checked after every event."),
+ "C19": ("model_checking", "findMemoryTypeIndex / findMemoryPreferences / calcAllocationParams are executed on a symbolic memory type table and compared clause by clause with a specification written from the property text (tables of 3 to 6 types)."),
+ "C20": ("model_checking", "Histories followed by freeing everything (or deliberately leaking one allocation) and tearing down pools and allocator on the simulated device."),
  "C07": ("model_checking", "The real defragmentation planner is driven over real TLSF metadata with symbolic sizes, both algorithms and all copy/ignore/destroy decisions; allocator invariants, reservation of source and destination, source identity and per-move outcomes are decided by the solver at every pass boundary."),
  "C15": ("model_checking", "Forward progress of every proposed move, per-pass limits with symbolic limit values, pass statistics, and equivalence of a reused and a fresh context are asserted on the same symbolic runs. Termination itself is not decided (stated in the evidence)."),
 }
